@@ -31,7 +31,8 @@ RustKeywords == {"as", "break", "const", "continue", "crate", "else", "enum", "e
 
 (* snake case of the vocabulary's type names (heck::ToSnakeCase) *)
 Snake(n) == CASE n = "Foo" -> "foo" [] n = "Bar" -> "bar" [] n = "FooBar" -> "foo_bar" [] n = "Type" -> "type" [] n = "Try" -> "try"
-              [] n = "Async" -> "async" [] n = "Mod" -> "mod" [] n = "P" -> "p" [] n = "Q" -> "q" [] OTHER -> n
+              [] n = "Async" -> "async" [] n = "Mod" -> "mod" [] n = "P" -> "p" [] n = "Q" -> "q" [] n = "Oops" -> "oops" [] n = "Svc" -> "svc"
+              [] OTHER -> n
 Esc(w) == IF w \in GeneratorKeywords THEN w \o "_" ELSE w
 ModName(item) == Esc(Snake(item.name))
 
